@@ -100,12 +100,13 @@ def _apply_idx(x, idx):
 
 
 class Built:
-    def __init__(self, t, others=(), finish=None, kind="own", view_expected=None, cache=0, keep=()):
+    def __init__(self, t, others=(), finish=None, kind="own", view_expected=None, cache=0, keep=(), model_g=None):
         self.t = t  # tensor to save
         self.others = list(others)  # other tensors of the graph that must stay untouched
         self.finish = finish  # completes a live graph -> list of tensors whose grads are compared with the twin
         self.kind = kind  # own | view
         self.view_expected = view_expected  # callable -> ndarray|None : NumPy's view of the base gradient
+        self.model_g = model_g or view_expected  # what the model is told (the replayed view, whatever the constant flag)
         self.cache = cache
         self.keep = keep  # references that keep the graph alive
 
@@ -167,12 +168,13 @@ def build(desc):
             t = (a * w).sum()
             t.backward()
             return Built(t, others=[a])
-    if kind in ("view", "constview"):
-        b = mg.tensor(arr, constant=const)
+    if kind in ("view", "constview", "ncview"):
+        b = mg.tensor(arr, constant=True if kind == "ncview" else const)
         idx = desc["idx"]
-        if kind == "constview":
+        if kind in ("constview", "ncview"):
+            # a view whose constant flag is forced against its base's (F11/F12 territory)
             newshape = (-1,) if arr.ndim != 1 else (1, -1)
-            v = mg.reshape(b, newshape, constant=True)
+            v = mg.reshape(b, newshape, constant=(kind == "constview"))
             npview = lambda a: a.reshape(newshape)
         else:
             v = _apply_idx(b, idx)
@@ -181,6 +183,7 @@ def build(desc):
         w = _w(rng, shape, mode)
         cache = 0
         keep = ()
+        own = None
         if gmode in ("base-backward", "base-backward-read", "stale-cache"):
             (b * w).sum().backward()
             if gmode != "base-backward":
@@ -193,13 +196,19 @@ def build(desc):
             wv = _w(rng, v.shape, mode)
             (v * wv).sum().backward()
             cache = 1  # clear_graph pulls the view gradient before dropping the creator
+            own = None if v.constant else wv.astype(v.dtype)  # d(sum(v*wv))/dv
         elif gmode == "no-backward":
             pass
         is_view = v.base is not None
-        exp = (lambda: None if b.grad is None else npview(b.grad))
+        if b.constant:  # a view of a constant base owns its gradient (its base never gets one)
+            exp = (lambda: own)
+        else:  # a constant view has no gradient; otherwise NumPy's view of the base's gradient
+            exp = (lambda: None if (b.grad is None or v.constant) else npview(b.grad))
+        mexp = exp if b.constant else (lambda: None if b.grad is None else npview(b.grad))
         if not is_view:  # e.g. views of constant/int tensors still have a base; x[0] of 1-d is a 0-d view
-            exp = None
-        return Built(v, others=[b], kind="view" if is_view else "own", view_expected=exp, cache=cache, keep=(b,) + keep)
+            exp = mexp = None
+        return Built(v, others=[b], kind="view" if is_view else "own", view_expected=exp, cache=cache, keep=(b,) + keep,
+                     model_g=mexp)
     raise ValueError(kind)
 
 
@@ -310,8 +319,13 @@ def run_case(desc, tag="x"):
     intmode = desc.get("vals", "int") == "int" and desc["kind"] != "gru"
     model_in = None
     if intmode:
-        st = f"{'view' if is_view else 'own'},{int(B.others[0].grad is not None) if is_view else 0},{int(t.creator is not None)},{B.cache if is_view else 0},{before['nops']},{int(before['w'])}"
-        model_in = f"io rt {DT[str(t.dtype)]} {_l(t.shape)} {_l([int(v) for v in np.asarray(t.data, dtype=np.float64).reshape(-1)])} {int(t.constant)} {garr(expected_grad)} {st}"
+        st = (f"{'view' if is_view else 'own'},{int(B.others[0].grad is not None) if is_view else 0},{int(t.creator is not None)},"
+              f"{B.cache if is_view else 0},{before['nops']},{int(before['w'])},{int(B.others[0].constant) if is_view else 0}")
+        mg_ = expected_grad
+        if is_view:
+            mg_ = B.model_g()
+            mg_ = None if mg_ is None else np.array(mg_)
+        model_in = f"io rt {DT[str(t.dtype)]} {_l(t.shape)} {_l([int(v) for v in np.asarray(t.data, dtype=np.float64).reshape(-1)])} {int(t.constant)} {garr(mg_)} {st}"
 
     # ---- save / load on the implementation
     err = None
@@ -475,6 +489,9 @@ def cases(ctx: Ctx):
                             if dtype in FLOATS and const is not True:
                                 out.append({"kind": "constview", "dtype": dtype, "shape": list(shape), "constant": const,
                                             "idx": "reshape", "graph": "base-backward", "vals": vals, "io": rng.choice(IOS), "rep": rep})
+                                for gm in ("view-backward", "no-backward"):
+                                    out.append({"kind": "ncview", "dtype": dtype, "shape": list(shape), "constant": True,
+                                                "idx": "reshape", "graph": gm, "vals": vals, "io": rng.choice(IOS), "rep": rep})
     # every io mode on a fixed representative set (so that no mode is left to chance)
     for iom in IOS:
         for dtype in ("float32", "float64", "float16", "int32", "bool"):
@@ -501,7 +518,7 @@ def cases(ctx: Ctx):
     return out
 
 
-ORDER = {"kind": ["leaf", "live", "view", "constview", "gru"], "dtype": ["float64", "float32", "float16", "int64", "int32", "int16", "int8", "uint8", "uint16", "uint32", "uint64", "bool"]}
+ORDER = {"kind": ["leaf", "live", "view", "constview", "ncview", "gru"], "dtype": ["float64", "float32", "float16", "int64", "int32", "int16", "int8", "uint8", "uint16", "uint32", "uint64", "bool"]}
 
 
 def _size(desc):
@@ -520,7 +537,7 @@ def signature(cls, what, desc, io_sensitive):
 
 def run(ctx: Ctx) -> Outcome:
     out = Outcome()
-    out.rule = ("full grid kind{leaf,live,view,constview} x dtype(12) x shape(9 incl. 0-d/empty) x constant x gradient mode "
+    out.rule = ("full grid kind{leaf,live,view,constview,ncview} x dtype(12) x shape(9 incl. 0-d/empty) x constant x gradient mode "
                 "(none/scalar/non-scalar/seeded/broadcast seed/nulled) x view index x view graph state (incl. cold/warm/stale "
                 "_view_grad cache), io mode drawn per case + every io mode on a fixed representative set; data exact "
                 "integers (also piped to the Lean model) and random floats incl. nan/inf/-0.0 (oracle only). "
